@@ -75,6 +75,51 @@ def run_govc(pkgs, only, timeout, workdir, tag, overlay=None, extra=None):
     return load_json(out, None), p.stdout
 
 
+def retry_undecided(pid, results, known, timeout):
+    """An obligation that came back timeout / unknown (not sat) is given a second, much longer run on all three solvers
+    before it is allowed to count as failing: a loaded machine must not turn a proof into an alarm."""
+    import concurrent.futures
+    todo = []
+    expected = set((k["clause"], k.get("site", "")) for k in known.get("findings", []) if k["property"] == pid and k.get("status") == "open")
+    for res in results:
+        for f in res["functions"]:
+            for o in f.get("obligations") or []:
+                if o.get("vacuity") or o["verdict"] in ("unsat", "sat"):
+                    continue
+                if (f["pkg"].replace("github.com/ozontech/file.d/", "") + "::" + o["clause"], o.get("src") or "") in expected:
+                    continue  # open known finding: expected not to discharge
+                if o.get("smt_file") and os.path.exists(o["smt_file"]):
+                    todo.append(o)
+    if not todo:
+        return
+    todo = todo[:24]
+
+    def one(o):
+        procs = []
+        for name, cmd in (("z3-new", ["z3-new", "-T:%d" % timeout]), ("z3", ["z3", "-T:%d" % timeout]), ("cvc5", ["cvc5", "--tlimit=%d" % (timeout * 1000)])):
+            procs.append((name, subprocess.Popen(cmd + [o["smt_file"]], stdout=subprocess.PIPE, stderr=subprocess.STDOUT, text=True)))
+        t0 = time.time()
+        verdict = None
+        pending = dict(procs)
+        while pending and time.time() - t0 < timeout + 5 and verdict is None:
+            for name, pr in list(pending.items()):
+                if pr.poll() is not None:
+                    out = pr.stdout.read()
+                    first = (out.strip().splitlines() or [""])[0].strip()
+                    del pending[name]
+                    if first in ("unsat", "sat"):
+                        verdict = (first, name)
+                        break
+            time.sleep(0.05)
+        for pr in pending.values():
+            pr.kill()
+        if verdict:
+            o["verdict"], o["solver"], o["ms"] = verdict[0], verdict[1] + " (retry)", round((time.time() - t0) * 1000, 1)
+
+    with concurrent.futures.ThreadPoolExecutor(max_workers=5) as ex:
+        list(ex.map(one, todo))
+
+
 def classify(pid, results, baseline, known):
     """Returns dict with lists: discharged, failed (each with status), vacuity problems, errors."""
     base = set(baseline.get(pid, {}).get("clauses", []))
@@ -189,6 +234,7 @@ def main():
             print("UNDECIDED property=%s govc could not load the packages: %s" % (pid, fatal.strip()[-600:]))
             write_evidence(pid, P, tier, seed, t0, None, fatal)
             return 0
+        retry_undecided(pid, results, known, 60 if tier == "quick" else 180)
         rep = classify(pid, results, baseline, known)
         if args.update_baseline:
             clauses = set()
